@@ -24,7 +24,22 @@ def flattenable(cfg):
             continue
         if jobs[p]["window"]:
             continue
-        if any(jobs[k]["sched"] or jobs[k]["forever"] or jobs[k]["dur"] is None or jobs[k]["sdur"] for k in ks):
+        # same-instant ties between a completion inside m and an abort above m are resolved by the
+        # order of timers and callbacks, which nesting legitimately changes: the comparison is made
+        # on trees without any timeout at or above the parent (aborts then come from critical
+        # failures only, and are compared through the outcome of the run)
+        a, tmo = p, False
+        while True:
+            # (a window above makes the order in which queued jobs get a slot depend on the
+            # iteration order of sets, which renumbering the jobs changes)
+            if jobs[a]["timeout"] is not None or jobs[a]["window"]:
+                tmo = True
+            if a == 0:
+                break
+            a = jobs[a]["parent"]
+        if tmo:
+            continue
+        if any(jobs[k]["sched"] or jobs[k]["forever"] or jobs[k]["dur"] is None or jobs[k]["sdur"] != 0 for k in ks):
             continue
         out.append(m)
     return out
@@ -76,8 +91,11 @@ def timeline(log):
     now = 0.0
     tl = {}
     outcome = None
+    tl["first_cancel"] = float("inf")
     for e in log:
         k = e[0]
+        if k in ("chit", "cabort", "cend", "taskcancelled", "waitcancel") and now < tl["first_cancel"]:
+            tl["first_cancel"] = now
         if k in ("tick", "gracetick", "latetick"):
             now = e[1]
         elif k == "start":
@@ -103,15 +121,25 @@ def _run_flat(arg):
     t1, o1 = timeline(r1["log"])
     t2, o2 = timeline(r2["log"])
     diffs = []
+    if o1 and o2 and (o1[0] != o2[0]):
+        diffs.append({"outcome_of_run_nested": o1, "outcome_of_run_flattened": o2})
+
+    def first_cancel(t):
+        return t["first_cancel"]
+    # T: the first instant at which some scheduler of either run aborts or ends with forever jobs to
+    # cancel.  Before T every job must start and end at the same instants with the same outcome;
+    # what happens in the instant T itself depends on the order of callbacks within one loop
+    # iteration, which nesting legitimately changes (a completion and an abort that tie)
+    T = min(first_cancel(t1), first_cancel(t2))
     for old, new in sorted(ren.items()):
         if cfg["jobs"][old]["sched"]:
             continue
         a, b = t1.get(old), t2.get(new)
-        if a != b:
+        va = [a[0] if a and a[0] < T else None, (a[1], a[2]) if a and a[1] is not None and a[1] < T else None]
+        vb = [b[0] if b and b[0] < T else None, (b[1], b[2]) if b and b[1] is not None and b[1] < T else None]
+        if va != vb:
             diffs.append({"job": old, "job_in_flattened_graph": new, "nested_tree (start, end, how)": a,
-                          "flattened_graph (start, end, how)": b})
-    if o1 and o2 and (o1[0] != o2[0]):
-        diffs.append({"outcome_of_run_nested": o1, "outcome_of_run_flattened": o2})
+                          "flattened_graph (start, end, how)": b, "first_abort_instant": T})
     return diffs
 
 
@@ -119,6 +147,16 @@ _POOL = None
 
 
 class C10(RProp):
+    def generate(self, tier, rnd):
+        n = 1000 if tier == "quick" else 20000
+        out = []
+        flat_profile = dict(self.profile, timeout=0.05, root_timeout=0.05, window=0.1, forever=0.03, never=0.0,
+                            sdur=0.05, nested=0.55, crit=0.6)
+        for i in range(n):
+            mj = rnd.choice([3, 5, 8, self.max_jobs, self.max_jobs])
+            out.append(rgen.gen_config(rnd, max_jobs=mj, profile=flat_profile if i % 2 else self.profile))
+        return out
+
     def evaluate(self, cases):
         global _POOL
         results = RProp.evaluate(self, cases)
